@@ -9,7 +9,7 @@ ASSUMPTIONS = vh_c02.ASSUMPTIONS[:4] + [
 ]
 SPLIT = {"par2": [("_none", "not fa and not fb"), ("_a", "fa and not fb")],
          "map_items": [("_ok", "failing == -1")]}
-scn.register(globals(), {"C11", "C09"}, ["seq_chain", "seq_misc", "two_execs", "start_routes", "par2", "par_pass_task", "map_items"], SPLIT)
+scn.register(globals(), {"C11", "C09"}, ["seq_chain", "seq_misc", "exec_timeout", "two_execs", "start_routes", "par2", "par_pass_task", "map_items"], SPLIT)
 import s2_more as more
 more.register(globals(), {"C11", "C09"}, ["par3_mixed", "map_iter_catch", "map_fail_batches", "map_in_par", "par_in_map", "branch_fail_state", "par_longform", "nested_inner_catch"],
               {"par3_mixed": [("_none", "not fa and not fb"), ("_a", "fa and not fb"), ("_b", "fb and not fa"), ("_ab", "fa and fb")], "map_in_par": [("_k%d" % k, "kind == %d" % k) for k in range(3)]})
